@@ -618,7 +618,6 @@ def status_reply(old, mode):
 
 
 class _StatusReportCallee(type(G.csi_status_report)):
-    params = dict(mode=Opt(Int))
     ensures_callee = staticmethod(lambda old, s, a, result: ())
     effects = staticmethod(lambda old, s, a, result: log_widget_calls(old, status_reply(old, a.mode)))
 
